@@ -186,6 +186,14 @@ def check(prog, rep, tier):
                     found='capability %d is emitted by Open.construct but %s' % (code, '; '.join(probs)), key=key)
         else:
             rep.ok('R14.c', key, file=oc.file, line=oc.node.lineno)
+    # several capability TLVs of one code (one per AFI/SAFI is a legal packaging) must add up
+    from .c15 import capability_overwrites
+    f2, outs2 = capability_overwrites(prog)
+    for k, line in outs2:
+        key = 'cap-overwrite:%s' % k
+        rep.bad('R14.c', key, file=f2.file, line=line, func=f2.qualname,
+                found='capa_dict[%s] is (re)created for every capability TLV of that code: with one TLV per '
+                      'AFI/SAFI only the last one survives' % k, expected='accumulate', key=key)
     # unknown-code fallback in Open.parse
     fb = False
     for n in ast.walk(op.node):
